@@ -6,11 +6,12 @@ import sys
 
 pid = sys.argv[1]
 n = int(sys.argv[2]) if len(sys.argv) > 2 else 3
+tag = sys.argv[3] if len(sys.argv) > 3 else ""
 for line in open("/verif/properties.jsonl"):
     p = json.loads(line)
     if p["id"] == pid:
         break
-print(f"""You are testing how well a (hidden) verification suite detects regressions in a Rust DNS server, barrucadu/resolved. You work ONLY in the scratch git worktree `/tmp/wt_{pid}` (a checkout of the project; build with `cd /tmp/wt_{pid} && CARGO_TARGET_DIR=/tmp/wt_{pid}/target cargo build --offline` / `cargo test --workspace --offline`; no network; the machine is busy, be patient with builds). Do not read or touch `/verif` or `/repo`. Do not run any `git worktree`/`git checkout`/`git stash`/`git commit` commands; you may use `git diff` and `git apply` inside the worktree.
+print(f"""You are testing how well a (hidden) verification suite detects regressions in a Rust DNS server, barrucadu/resolved. You work ONLY in the scratch git worktree `/tmp/wt{tag}_{pid}` (a checkout of the project; build with `cd /tmp/wt{tag}_{pid} && CARGO_TARGET_DIR=/tmp/wt{tag}_{pid}/target cargo build --offline` / `cargo test --workspace --offline`; no network; the machine is busy, be patient with builds). Do not read or touch `/verif` or `/repo`. Do not run any `git worktree`/`git checkout`/`git stash`/`git commit` commands; you may use `git diff` and `git apply` inside the worktree.
 
 The property under test:
 
@@ -18,8 +19,8 @@ Property {pid}: {p['title']}. {p['statement']} (Quantified over: {p['quantifier'
 
 Produce {n} independent, realistic source changes (the kind of bug a developer could plausibly introduce in a refactor, an "optimisation" or a feature tweak), each of which BREAKS this property while the project still compiles and the existing test suite (`cargo test --workspace --offline`) still passes entirely. Prefer changes that need something specific to manifest — a particular boundary value or size, an unusual input shape, a multi-step sequence of operations, a particular interleaving or fault at a particular point, or two cooperating sites that each look fine alone — NOT changes that ordinary use would expose at once. Make the changes different in kind and, where the property has several clauses or several code sites, spread them over different clauses and files.
 
-For each change i = 1..{n} write into `/tmp/seed_{pid}/`:
+For each change i = 1..{n} write into `/tmp/seed{tag}_{pid}/`:
  - `patch<i>.diff`: the change as a unified diff relative to the worktree's HEAD (`git diff` output; it must apply with `git apply` at the repository root);
  - `demo<i>.rs`: a demonstration — a self-contained Rust integration-test file (`#[test]` functions using only the public API of the crates; async code may use a tokio current-thread runtime if the crate already depends on tokio) that FAILS with the change applied and PASSES without it; its header comment must say where to place it, in the form `crates/<crate>/tests/demo<i>.rs`, and how to run it (`cargo test --offline -p <crate> --test demo<i>`);
- - a section in `/tmp/seed_{pid}/notes.md`: what the change is, which clause of the property it breaks, what exactly is needed for it to manifest, and the outcome of (a) the full existing test suite with the change (must pass), (b) the demo with the change (must fail), (c) the demo without the change (must pass).
+ - a section in `/tmp/seed{tag}_{pid}/notes.md`: what the change is, which clause of the property it breaks, what exactly is needed for it to manifest, and the outcome of (a) the full existing test suite with the change (must pass), (b) the demo with the change (must fail), (c) the demo without the change (must pass).
 Work one change at a time: apply, verify (a) and (b), save the diff, revert by `git apply -R patch<i>.diff`, verify (c), then go on. Run (a) with the demo file removed from the tree. Leave the worktree's tracked files unmodified at the end and remove the demo files from the worktree. Your final message: a short list of the changes and confirmation of (a)(b)(c) for each.""")
